@@ -25,7 +25,7 @@ import ast
 
 from .. import Undecided
 from ..expr import canon, lin, call_name, unparse, const_num
-from ..model import unpack_strategies, stmt_text
+from ..model import struct_object_attrs, unpack_strategies, stmt_text
 from .. import drivers as D
 
 EXPLANATION = __doc__
@@ -195,8 +195,8 @@ def check_child_cursors(ctx, where, node, label, ci=None):
             is_child = name in ('unpack', 'unpack_impl') or tail.endswith('.unpack') or tail in ('unpack',)
             if not is_child:
                 continue
-            if isinstance(f, ast.Attribute) and canon(f.value) in ('self.struct_obj', 'struct'):
-                continue
+            if isinstance(f, ast.Attribute) and (canon(f.value) == 'struct' or (isinstance(f.value, ast.Attribute) and f.value.attr in struct_object_attrs(repo))):
+                continue           # struct.Struct.unpack: the standard codec, not a child field
             if id(e.node) in seen:
                 continue
             seen.add(id(e.node))
